@@ -22,6 +22,7 @@ pub static C05: Scenario = Scenario {
     gen: gen_c05,
     judge: |run, obs| oracle::judge("C05", run, obs),
     assumptions: &["absent and explicitly empty footers are equivalent, as the property states"],
+    exhaustive: &[],
 };
 
 pub static C06: Scenario = Scenario {
@@ -35,6 +36,7 @@ pub static C06: Scenario = Scenario {
     gen: gen_c06,
     judge: |run, obs| oracle::judge("C06", run, obs),
     assumptions: &["absent and explicitly empty assertions are equivalent, as the property states", "assertions shorter than 24 alphanumerics are exempt from the occurrence clause (accidental occurrence would not be negligible)"],
+    exhaustive: &[],
 };
 
 /// expectation variants around `f`
@@ -48,6 +50,13 @@ pub fn variants(r: &mut Rng, f: &Option<String>) -> Vec<Option<String>> {
         v.push(Some(format!("{}x", s)));
         v.push(Some(format!("{}\0", s)));
         v.push(Some(format!(" {}", s)));
+        // canonically equivalent Unicode in another normalisation form is a different byte string
+        if s.contains('é') {
+            v.push(Some(s.replace('é', "e\u{301}")));
+        } else {
+            v.push(Some(format!("{}\u{301}", s)));
+        }
+        v.push(Some(s.replace('a', "\u{430}")).filter(|x| x != s)); // Latin a -> Cyrillic а
         v.push(Some(format!("{}\n", s)));
         v.push(Some(format!("{} ", s)));
         v.push(Some(format!("\t{}", s)));
